@@ -21,14 +21,17 @@ for i in IDS:
          T(["L", "s", "+", "t", "-", "*", "ID:Z:" + i]),
          T(["C", "s", "+", "t", "-", "0", "*", "ID:Z:" + i])]
 U1 += [T(["L", "s", "-", "t", "+", "*"]), T(["S", "s", "*"]),
-       T(["P", "y", "x+", "*"]), T(["L", "x", "+", "1", "-", "*"])]
+       T(["P", "y", "x+", "*"]), T(["L", "x", "+", "1", "-", "*"]),
+       T(["L", "s", "+", "y", "-", "*", "ID:Z:2"])]            # `y` as a segment
 U2 = []
 for i in IDS:
   U2 += [T(["S", i, "4", "*"]), T(["E", i, "s+", "t-", "0", "1", "0", "1", "*"]),
          T(["G", i, "s+", "t-", "1", "*"]), T(["O", i, "s+"]), T(["U", i, "s"])]
 U2 += [T(["E", "*", "s+", "t-", "0", "2", "0", "2", "*"]), T(["U", "*", "s"]),
        T(["O", "*", "t+"]), T(["G", "*", "s-", "t+", "1", "*"]), T(["S", "s", "4", "*"]),
-       T(["U", "y", "x"]), T(["O", "2", "x+"]), T(["U", "1", "x 2"])]
+       T(["U", "y", "x"]), T(["O", "2", "x+"]), T(["U", "1", "x 2"]),
+       T(["E", "y", "s+", "2-", "0", "1", "0", "1", "*"]),   # `2` as a segment
+       T(["G", "x", "2+", "s-", "1", "*"])]
 
 
 def classify(d, op):
@@ -56,13 +59,51 @@ def classify(d, op):
 class S(explore.Spec):
   lookups = IDS + ["s", "t", "*", "nope", ""]
 
+  def namespace_problems(self, g, d):
+    out = []
+    try:
+      names = list(g.names)
+    except Exception as e:
+      return ["names raises " + type(e).__name__]
+    defined = set(d.names())
+    if len(names) != len(set(names)):
+      out.append("duplicate identifiers {}".format(sorted(names)))
+    if not (defined <= set(names) <= defined | d.undefined()):
+      out.append("names {} but defined {} (+ mentioned {})".format(
+          sorted(names), sorted(defined), sorted(d.undefined())))
+    for n in self.lookups:
+      if n in ("*", ""):
+        continue
+      rec = d.find(n)
+      try:
+        l = g.line(n)
+      except Exception as e:
+        out.append("line({!r}) raises {}".format(n, type(e).__name__))
+        continue
+      if rec is None and isinstance(l, gfapy.Line) and not l.virtual:
+        out.append("line({!r}) returns {} although the identifier is not in "
+                   "use".format(n, observe.lkey(l)))
+      if rec is not None and not (isinstance(l, gfapy.Line) and not l.virtual):
+        out.append("line({!r}) does not find the line carrying it".format(n))
+    return out
+
   def judge(self, g, env, hist, op, err):
     try:
       d = c05.model_of(self.version, hist)
     except refdoc.Illegal:
       return [("skip", "history not legal in the model")]
+    if d.degenerate():
+      return [("skip", "group left without items")]
     kind, info = classify(d, op)
+    if kind == "legal" and info.degenerate():
+      return [("skip", "group left without items")]
     if kind == "open":
+      if err is not None and isinstance(err, gfapy.Error):
+        # whatever the reason of the refusal: the namespace and the lookups
+        # must be those of the state before the call
+        probs = self.namespace_problems(g, d)
+        return [("refused-op-changed-namespace", p) for p in probs] or \
+            [("skip", "left open, refused, namespace unchanged")]
       return [("skip", "left open: " + str(info))]
     if err is not None and not isinstance(err, gfapy.Error):
       return [("skip", "foreign exception (C07)")]
